@@ -194,6 +194,23 @@ def kf_glide(v, f):
     return bool(v.case.get("kfGlide")) and v.clause.startswith("C04.feasible")
 
 
+def kf_cu_sign(v, f):
+    """KF-C03-cold-utility-contribution: the request holds an active cold utility with a contribution d > 0 whose level T satisfies
+    T - d <= (coldest shifted hot temperature) < T + d: the library's sufficiency test subtracts the contribution where the shifted
+    level adds it, so no default cold utility is created although the supplied one cannot reach the coldest hot streams"""
+    case = v.case
+    hot = [s["lo"] - s["dtc"] for s in case.get("S", []) if s["k"] == "H"]
+    if not hot:
+        return False
+    cu_tmax = min(hot)
+    for u in case.get("ladder", []):
+        if u["type"] in ("Cold", "Both") and u.get("active", True) and u.get("dtc", 0) > 0:
+            top = max(u["ts"], u["tt"]) + (10 if u["ts"] == u["tt"] else 0)        # isothermal: the phase-change glide of 10 units is added
+            if top - u["dtc"] <= cu_tmax < top + u["dtc"]:
+                return True
+    return False
+
+
 def kf_order(v, f):
     """KF-C04-contribution-order: real and shifted supply orders of the utilities differ (TLC tags the case)."""
     return bool(v.case.get("kfOrder")) and v.clause == "C04.lowest_grade_first"
@@ -282,7 +299,8 @@ def check(prop, tier, run: Run, replay_case=None):
         # TraceSite on SiteGen problems (the clause is shared with C09)
         from . import site
         ren = {"C09.total_process_is_sum_of_zones": "C03.total_process_lists_zone_sums"}
-        site.site_leg(run, tier, ["quick2", "near"] if tier == "quick" else ["quick2", "near", "deep3"],
+        run.register_matcher("kf_cu_sign", kf_cu_sign)
+        site.site_leg(run, tier, ["quick2", "near", "cusign"] if tier == "quick" else ["quick2", "near", "cusign", "deep3"],
                       lambda c: ren.get(c, c if c.startswith("C03.") else None))
     if tier == "thorough":
         mutant_selftest(run)
